@@ -376,7 +376,9 @@ func (r *ATRun) Rollback(i int) bool {
 		r.Obs = append(r.Obs, "rb:nobranch")
 		return false
 	}
-	st, ok, pn := r.w.coord.RollbackBranch(r.w.coord.LastSession(), r.Branches[i], 5*time.Second)
+	// (a generous limit: under a loaded machine a rollback of many rows has taken more than five seconds, and a
+	// delivery given up on reads as a failed rollback)
+	st, ok, pn := r.w.coord.RollbackBranch(r.w.coord.LastSession(), r.Branches[i], 30*time.Second)
 	if pn != "" && pn != "timeout" {
 		r.Obs = append(r.Obs, "rb:fail")
 		return false
